@@ -9,6 +9,8 @@ for T in "$@"; do
   P=${T%-*}
   PROPS="$P"
   [ "$P" = C06 ] && PROPS="C06 C02 C11"
+  [ "$T" = C06-10 ] && PROPS="C06"
+  [ "$T" = C06-11 ] && PROPS="C06 C09"
   [ "$T" = C02-4 ] && PROPS="C02 C09"
   [ "$T" = C02-5 ] && PROPS="C02 C01"
   [ "$T" = C09-6 ] && PROPS="C09 C02"
